@@ -13,13 +13,15 @@ Proof.
   intros I H. inv_step H. fold (T s t) in H.
   destruct (started (T s t)) eqn:Hst; cbn [negb] in H; [|discriminate].
   destruct (Nat.ltb_spec 0 (refs (T s t))) as [Hr|Hr]; cbn [negb orb] in H; [|discriminate].
-  destruct (mustfree (T s t)) eqn:Hmf; [discriminate|].
+  destruct (mustfree (T s t)) eqn:Hmf; [discriminate|]. cbn [orb] in H.
+  destruct (lends_from s t) eqn:Hlf; [discriminate|].
   destruct (live s) eqn:Hl; cbn [negb] in H; [|discriminate].
   injection H as <-.
   destruct (J1 s I Hl) as [Hne Hv].
   set (c' := tick (clk (T s t)) t).
   set (x' := {| clk := c'; pend := join (pend (T s t)) (view (hdm s)); refs := refs (T s t) - 1;
-                excl := false; mustfree := Nat.eqb (val (hdm s)) 1; started := true |}).
+                excl := false; mustfree := Nat.eqb (val (hdm s)) 1; started := true; lend := lend (T s t) |}).
+  assert (Hcc : cle (clk (T s t)) c') by (subst c'; apply cle_tick).
   set (m := {| val := val (hdm s) - 1; view := join (view (hdm s)) c'; wt := t; we := get c' t |}).
   assert (HT : forall M W R l u, T {| msgs := M; Wc := W; Rc := R; live := l; ths := upd (ths s) t x' |} u
                          = if Nat.eqb u t then x' else T s u) by (intros; apply T_upd; auto).
@@ -32,12 +34,14 @@ Proof.
     + intros _. pose proof (J2 s I t Hr). subst c'. pw.
     + apply (J2 s I u).
   - (* J3 *) intros _ u. cbn [view m].
-    destruct (J3 s I Hl u) as [H3|[[h [Hh H3]]|[h [Hm H3]]]].
+    destruct (J3 s I Hl u) as [H3|[[h [Hh H3]]|[[h [Hm H3]]|[h [Hb H3]]]]].
     + left. rewrite get_join. lia.
     + destruct (Nat.eqb_spec h t) as [->|Hne'].
       * left. rewrite get_join. subst c'. rewrite get_tick. destruct (Nat.eqb_spec u t); subst; lia.
       * right. left. exists h. rewrite HT. destruct (Nat.eqb_spec h t); [contradiction|]. auto.
     + exfalso. exact (mustfree_no_refs s h t I Hm Hr).
+    + right. right. right. exists h. rewrite HT. destruct (Nat.eqb_spec h t) as [->|Hne']; cbn [lend clk x']; [|auto].
+      split; [exact Hb|]. specialize (Hcc u). lia.
   - (* J4 *) intros u. rewrite HT. destruct (Nat.eqb_spec u t) as [->|Hne']; cbn [mustfree clk pend x'].
     + intros Hm. apply Nat.eqb_eq in Hm.
       assert (Hall0 : forall w, w <> t -> refs (T s w) = 0).
@@ -45,11 +49,16 @@ Proof.
       split; [reflexivity|]. split; [lia|]. split; [|split].
       * pose proof (J2 s I t Hr). subst c'. pw.
       * intros v. rewrite !get_join. subst c'. rewrite get_tick.
-        destruct (J3 s I Hl v) as [H3|[[h [Hh H3]]|[h [Hm' H3]]]].
+        destruct (J3 s I Hl v) as [H3|[[h [Hh H3]]|[[h [Hm' H3]]|[h [Hb H3]]]]].
         -- destruct (Nat.eqb_spec v t); subst; lia.
         -- destruct (Nat.eqb_spec h t) as [->|Hne'']; [destruct (Nat.eqb_spec v t); subst; lia|].
            specialize (Hall0 h Hne''). lia.
         -- exfalso. exact (mustfree_no_refs s h t I Hm' Hr).
+        -- (* a borrower: its lender holds a reference; all references are ours; but we are not lending *)
+           exfalso. destruct (lend (T s h)) as [|p] eqn:El; [contradiction|].
+           destruct (J10 s I h p El) as (_ & _ & Hrp & _).
+           destruct (Nat.eq_dec p t) as [->|Hpt]; [exact (lends_from_false s t h Hlf El)|].
+           specialize (Hall0 p Hpt). lia.
       * intros w. rewrite HT. destruct (Nat.eqb_spec w t); [auto|]. intros Hw.
         destruct (J4 s I w Hw) as (_ & H0 & _). lia.
     + intros Hm. destruct (J4 s I u Hm) as (_ & H0 & _). lia.
@@ -70,4 +79,5 @@ Proof.
   - (* J8 *) intros u. rewrite HT. destruct (Nat.eqb_spec u t) as [->|Hne']; cbn [started x']; [discriminate|].
     apply (J8 s I u).
   - intros _ H0. exists t. rewrite HT, Nat.eqb_refl. cbn [mustfree x']. apply Nat.eqb_eq. lia.
+  - apply J10_upd; auto. intros (c & Hc). exfalso. exact (lends_from_false s t c Hlf Hc).
 Qed.
